@@ -121,11 +121,13 @@ def _unsync():
         if name == "insert_new_n2_w_no_prefix":
             prim = {"C13", "C12"}
         if name == "insert_upd0_n2_w_oversize":
-            prim = {"C01", "C04"}
+            prim = {"C01", "C04", "C10"}
         if name in ("insert_new_n2_full", "insert_new_n2_w_admit", "insert_upd_n2_w_shrink", "insert_upd_n2_w_grow", "invalidate1_n2_w", "evict_lru_n2_grown"):
             prim |= {"C10"}
-        if name in ("contains_n2_full", "iter_n2", "insert_new_n2_full", "invalidate0_n2"):
+        if name in ("contains_n2_full", "iter_n2", "insert_new_n2_full", "invalidate0_n2", "invalidate_all_n2"):
             prim |= {"C14"}
+        if name == "insert_new_ttl_full":
+            prim |= {"C08"}
         cost = 60
         if sym_time: cost = 300
         if real and not sym_time: cost = 90
@@ -213,6 +215,13 @@ QUICK_SYNC = {   # sync queries per property in the quick tier (10-90 s each wit
     "s_evict_lru_exact": {"C04", "C12", "C10"},
     "s_evict_lru_within": {"C03", "C04"},
     "s_purge_nothing": {"C03", "C05", "C06"},
+    # un-synced bursts (stale queued operations) that are cheap enough for every change
+    "l_burst_ins1_inv0_cap1_hot": {"C08", "C11", "C10"},
+    "l_burst_ins1_room": {"C03", "C10"},
+    "l_burst_ins1_cap1_cold": {"C13", "C03"},
+    "l_burst_ins1_ins1_cap1_cold": {"C10", "C01", "C04"},
+    "l_burst_upd0_inv0_room": {"C07", "C10", "C11"},
+    "l_burst_shrink0_ins1_w_cap7_hot": {"C10", "C04", "C13"},
 }
 def _sync():
     src = open(os.path.join(os.path.dirname(os.path.dirname(os.path.abspath(__file__))), "kani", "sync_base_cache.rs")).read()
@@ -234,7 +243,7 @@ def _sync():
             if tti: props |= {"C06"}; prim |= {"C06"}
             if va: props |= {"C07"}; prim |= {"C07"}
         elif fn == "s_insert":
-            props |= {"C01", "C05", "C06", "C10", "C14"}; prim |= {"C01", "C05", "C06"}
+            props |= {"C01", "C05", "C06", "C10", "C14", "C16", "C07", "C03"}; prim |= {"C01", "C05", "C06"}
         elif fn == "s_invalidate_all":
             props |= {"C07", "C01"}; prim |= {"C07"}
         elif fn == "l_upsert_update":
@@ -311,6 +320,22 @@ add("sync_base_cache.rs", "l_upsert_admission_before_sketch_is_enabled", {"C09",
 add("sync_builder.rs", "sync_policy_reports_exactly_the_knobs", {"C17"}, "quick", 100, "sync builder: every knob combination -> policy()", "all capacities, durations <= 1000 y")
 add("sync_builder.rs", "sync_builder_new_equals_max_capacity", {"C17"}, "quick", 100, "sync CacheBuilder::new(n) == max_capacity(n); initial_capacity inert for policy", "all n")
 
+# measured cost of every query (seconds, one query alone; lib/costs.json is written from a run of `./check ALL`):
+# replaces the registered estimate for scheduling, time allowance and the thinning of the quick tier
+import json as _json
+try:
+    _C = _json.load(open(os.path.join(os.path.dirname(os.path.abspath(__file__)), "costs.json")))
+except Exception:
+    _C = {}
+for _h in H:
+    _m = _C.get(_h.name)
+    if _m and _m.get("status") in ("SUCCESSFUL", "FAILED") and _m.get("s") is not None:
+        _h.cost = max(1, int(_m["s"]))
+        _h.timeout = max(240, int(_m["s"] * 8))
+        _h.measured = True
+    else:
+        _h.measured = False
+
 PROPS = {}
 QUICK_UNSYNC_CAP = 14
 # queries that the thinning must never drop (each is the only quick witness of some failure class)
@@ -321,7 +346,7 @@ def plan(prop, tier):
     if tier == "thorough":
         return [h for h in H if prop in h.props]
     q = [h for h in H if prop in h.props and h.tier == "quick" and prop in h.quick]
-    u = [h for h in q if h.file == "unsync_cache.rs" and not h.expect_fail and h.cost >= 30]
+    u = [h for h in q if h.file == "unsync_cache.rs" and not h.expect_fail and h.cost >= 45]
     if len(u) > QUICK_UNSYNC_CAP:
         # deterministic thinning that keeps the spread over operation kinds: every k-th in registration order
         keep = {h.name for h in u if h.fn in KEEP}
